@@ -42,6 +42,10 @@ type Gen struct {
 	WellFormedMath    bool // formulas are well-formed OMML fragments
 	NoTableTemplates  bool // ApplyTableStyle only with style ids the registry defines
 	AllowStyleRemoval bool
+	StyleEdits        bool // registered styles are also changed in place through the public structs
+	NoCellList        bool // no lists inside table cells (they use the process-wide numbering registry)
+	ObsEvery          int  // > 0: about one accessor sweep ("obs") every ObsEvery ops
+	ObsCounts         bool // accessor sweeps read the note counts (which come from the process-wide registry)
 	styles            []string
 	ntables           int
 	nparas            int
@@ -126,6 +130,9 @@ func (g *Gen) DocOps(d, n int) []sim.Op {
 		if op, ok := g.one(d); ok {
 			op.D = d
 			ops = append(ops, op)
+			if g.ObsEvery > 0 && g.R.Intn(g.ObsEvery) == 0 {
+				ops = append(ops, sim.Op{K: "obs", D: d, I: []int{btoi(g.ObsCounts)}})
+			}
 		}
 	}
 	return ops
@@ -323,6 +330,9 @@ func (g *Gen) opTable() (sim.Op, bool) {
 	case 11:
 		return sim.Op{K: "t.nested", I: []int{t, a, b, r.Range(1, 2), r.Range(1, 2), 3000, 0, 0}}, true
 	case 12:
+		if g.NoCellList {
+			return sim.Op{}, false
+		}
 		return sim.Op{K: "t.celllist", I: []int{t, a, b}, S: append([]sim.Str{g.str(listTypes[r.Intn(len(listTypes))]), g.str(bullets[r.Intn(len(bullets))])}, g.cells(r.Range(1, 3))...)}, true
 	default:
 		return sim.Op{K: "t.clearcell", I: []int{t, a, b}}, true
@@ -486,6 +496,13 @@ func (g *Gen) opProp() (sim.Op, bool) {
 // opStyle creates, uses or removes a custom style.
 func (g *Gen) opStyle() (sim.Op, bool) {
 	r := g.R
+	if g.StyleEdits && r.Chance(0.35) {
+		id := r.Pick("Normal", "Heading1", "Heading2", "Heading3", "Title", "Quote")
+		if len(g.styles) > 0 && r.Chance(0.3) {
+			id = g.styles[r.Intn(len(g.styles))]
+		}
+		return sim.Op{K: "style.edit", S: []sim.Str{g.str(id), g.str(r.Pick("FF0000", "00AA00", "123456", "New Name", "x"))}, I: []int{r.Intn(6)}}, true
+	}
 	switch {
 	case len(g.styles) == 0 || r.Chance(0.4):
 		g.tag++
